@@ -3899,7 +3899,12 @@ public:
     //! @brief Checks if has value
     constexpr bool has_value() const noexcept
     {
-        return (val != Derived::null_value());
+        // floating-point types use NaN as the default null value and NaN never
+        // compares equal to anything, including itself
+        return !((val == Derived::null_value())
+                 || (is_nan(val, std::is_floating_point<T>{})
+                     && is_nan(
+                         Derived::null_value(), std::is_floating_point<T>{})));
     }
 
     //! @brief Checks if has value
@@ -3919,7 +3924,8 @@ public:
     constexpr friend bool
         operator==(const optional_base& lhs, const optional_base& rhs) noexcept
     {
-        return *lhs == *rhs;
+        return (lhs && rhs) ? (*lhs == *rhs)
+                            : (lhs.has_value() == rhs.has_value());
     }
 
 #ifdef SBEPP_DOXYGEN
@@ -3929,7 +3935,8 @@ public:
 #endif
 
 #if SBEPP_HAS_THREE_WAY_COMPARISON
-    constexpr friend std::strong_ordering
+    // `std::partial_ordering` for floating-point types
+    constexpr friend std::compare_three_way_result_t<value_type>
         operator<=>(const optional_base& lhs, const optional_base& rhs) noexcept
     {
         if(lhs && rhs)
@@ -3944,7 +3951,7 @@ public:
     constexpr friend bool
         operator!=(const optional_base& lhs, const optional_base& rhs) noexcept
     {
-        return *lhs != *rhs;
+        return !(lhs == rhs);
     }
 
     //! @brief Tests if `lhs` is less than `rhs`
@@ -3978,6 +3985,16 @@ public:
     //! @}
 
 private:
+    static constexpr bool is_nan(const value_type v, std::true_type) noexcept
+    {
+        return v != v;
+    }
+
+    static constexpr bool is_nan(const value_type, std::false_type) noexcept
+    {
+        return false;
+    }
+
     value_type val{Derived::null_value()};
 };
 } // namespace detail
